@@ -760,6 +760,66 @@ func c05MGen(r *vfRand, adv bool) c05MIn {
 	return in
 }
 
+// c05MGenHostMix (added by the mux agent for seeded C05l / C12k / C12l): several hosts x
+// clients x rule-level filter, hits following hits.  Rule 1 matches only the "internal" host
+// (a name or the IPv6 literal ::1) and its filter blocks client X; a later catch-all rule
+// owns the paths.  Blocks: X warms the cache on an unfiltered host (twice, so that the
+// second request is a hit), an allowed client Y fills the entry of the filtered host, then
+// X asks for that entry - routed, 404 and 405 targets.
+func c05MGenHostMix(r *vfRand) c05MIn {
+	x := r.PickStr("52.10.77.3", "8.8.8.8", "2001:db8::7")
+	y := "9.9.9.9"
+	blockX := &c05MFilter{Def: false, Allow: []string{}, Block: []string{x}}
+	if r.Chance(1, 4) {
+		blockX = &c05MFilter{Def: true, Allow: []string{y}, Block: []string{}}
+	}
+	internal := r.PickStr("internal.example.com", "::1", "a.com")
+	in := c05MIn{CacheSize: r.PickInt(8, 100), Backends: []string{"A", "B", "C", "D", "H"}}
+	first := c05MRule{Host: internal, Filter: blockX}
+	owner := c05MRule{Paths: []c05MPath{{Path: "/a", Methods: []string{"GET", "POST"}, Backend: "A"}, {Prefix: "/p", Backend: "B"}}}
+	if r.Bool() {
+		owner.HostRegexp = `.*`
+	}
+	if r.Chance(1, 3) {
+		owner.Paths[r.Intn(2)].Filter = blockX
+		if r.Bool() {
+			first.Filter = nil
+		}
+	}
+	in.Rules = []c05MRule{first, owner}
+	intHost := internal
+	if strings.Contains(internal, ":") {
+		intHost = "[" + internal + "]" + r.PickStr(":8080", ":80")
+	} else if r.Bool() {
+		intHost += ":8080"
+	}
+	otherHost := r.PickStr("www.example.com", "c.org", "[::2]:80")
+	remote := func(ip string) string {
+		if strings.Contains(ip, ":") {
+			return "[" + ip + "]:5123"
+		}
+		return ip + ":5123"
+	}
+	mk := func(host, ip, m, pth string) c05MReq {
+		return c05MReq{Host: host, Method: m, Path: pth, Remote: remote(ip)}
+	}
+	targets := [][2]string{{"GET", "/a"}, {"PUT", "/a"}, {"GET", "/zz"}, {"GET", "/p/x"}}
+	nb := r.Range(2, 4)
+	for b := 0; b < nb; b++ {
+		t := targets[r.Intn(len(targets))]
+		xa, yb, xb := mk(otherHost, x, t[0], t[1]), mk(intHost, y, t[0], t[1]), mk(intHost, x, t[0], t[1])
+		switch r.Intn(3) {
+		case 0:
+			in.Reqs = append(in.Reqs, xa, xa, yb, xb)
+		case 1:
+			in.Reqs = append(in.Reqs, yb, xa, xa, xb)
+		default:
+			in.Reqs = append(in.Reqs, yb, yb, xa, xa, xa, xb, xb)
+		}
+	}
+	return in
+}
+
 func TestVerifC05Mux(t *testing.T) {
 	out := vfOpen(t)
 	defer out.Close()
@@ -784,6 +844,9 @@ func TestVerifC05Mux(t *testing.T) {
 	for i := 0; i < n; i++ {
 		r := root.Fork(i)
 		in := c05MGen(r, adv)
+		if i%5 == 3 {
+			in = c05MGenHostMix(r)
+		}
 		obs := c05MRun(&in)
 		out.Emit(vfCase{ID: fmt.Sprintf("%s-mux-%d", src, i), Src: src, Grp: "mux", In: in, Obs: obs})
 	}
